@@ -347,6 +347,94 @@ func checkTrace(log []string, faultFree bool) []string {
 type bCase struct {
 	World *BWorld `json:"world"`
 	Ops   []BOp   `json:"ops"`
+	// NoDiagCb: the build runs with a tracer that has no Diagnostics callback (recorded so that a
+	// replay takes the same route)
+	NoDiagCb bool `json:"no_diag_cb,omitempty"`
+}
+
+// checkBCase: a recorded world must be one the scripted environment can serve (the helpers panic on
+// addresses, versions and constraints they cannot parse). "" = usable.
+func checkBCase(c *bCase) (why string) {
+	if c == nil || c.World == nil || len(c.Ops) == 0 || len(c.World.Pkgs) == 0 {
+		return "the recorded input is not a builder case (no world / no Add calls)"
+	}
+	defer func() {
+		if x := recover(); x != nil {
+			why = fmt.Sprintf("the recorded world is not well-formed: %v", x)
+		}
+	}()
+	finder := func(f int) {
+		if f < 0 || f > 2 {
+			panic(fmt.Sprintf("finder index %d", f))
+		}
+	}
+	w := c.World
+	for _, p := range w.Pkgs {
+		mustRemote(p.Addr, "")
+	}
+	for _, r := range w.Regs {
+		mustRegistry(r.Addr, "")
+		for _, v := range r.Versions {
+			versions.MustParseVersion(v.Ver)
+		}
+	}
+	for _, sr := range w.Srcs {
+		mustRegistry(sr.Reg, "")
+		versions.MustParseVersion(sr.Ver)
+		if !sr.Err {
+			mustRemote(sr.Pkg, sr.Sub)
+		}
+	}
+	for _, d := range w.Deps {
+		finder(d.Finder)
+		for _, dc := range d.Decls {
+			finder(dc.Finder)
+			switch dc.Kind {
+			case "r":
+				mustRemote(dc.Pkg, dc.Sub)
+			case "g":
+				mustRegistry(dc.Pkg, dc.Sub)
+				allowedSet(dc.Allowed)
+			case "l":
+				if _, err := sourceaddrs.ParseLocalSource(dc.Rel); err != nil {
+					panic("bad local source " + dc.Rel)
+				}
+			case "w", "e":
+			default:
+				panic("declaration kind " + dc.Kind)
+			}
+		}
+	}
+	for _, o := range c.Ops {
+		finder(o.Finder)
+		switch o.Kind {
+		case "ar":
+			mustRemote(o.Pkg, o.Sub)
+		case "ag":
+			mustRegistry(o.Pkg, o.Sub)
+			allowedSet(o.Allowed)
+		case "af":
+			mustRegistry(o.Pkg, o.Sub)
+			versions.MustParseVersion(o.Allowed)
+		default:
+			panic("operation kind " + o.Kind)
+		}
+	}
+	return ""
+}
+
+// loadReplayedBCase: the recorded builder case of the lane, if -case names the lane and it is usable.
+func loadReplayedBCase(cfg *Config, rep *Report, lane string) *bCase {
+	var c bCase
+	if !loadReplayInput(cfg, lane, &c) {
+		replayMissing(cfg, rep, lane)
+		return nil
+	}
+	if why := checkBCase(&c); why != "" {
+		rep.ReplayNote("refused: " + why)
+		return nil
+	}
+	return &c
 }
 
 func hasErrorDiag(results []string) bool {
@@ -375,23 +463,28 @@ func init() {
 		cases := make([]*bCase, n)
 		for i := range cases {
 			w, ops := genBWorld(r, i%3 == 2)
-			cases[i] = &bCase{World: w, Ops: ops}
+			// every fifth build runs with a tracer that has no Diagnostics callback
+			cases[i] = &bCase{World: w, Ops: ops, NoDiagCb: i%5 == 4}
+		}
+		// exact replay (-case): the recorded world and Add calls take an extra last slot and run first, alone
+		replayIdx := -1
+		if rc := loadReplayedBCase(cfg, rep, "builder"); rc != nil {
+			replayIdx = len(cases)
+			cases = append(cases, rc)
+			reqs = append(reqs, "")
+			impl = append(impl, "")
+			human = append(human, nil)
 		}
 		var wg sync.WaitGroup
 		sem := make(chan struct{}, 16)
-		for i := range cases {
-			wg.Add(1)
-			sem <- struct{}{}
-			go func(i int) {
-				defer wg.Done()
-				defer func() { <-sem }()
+		runCase := func(i int) {
 				c := cases[i]
 				target := filepath.Join(cfg.Work, fmt.Sprintf("b%06d", i))
 				os.MkdirAll(target, 0755)
 				defer os.RemoveAll(target)
 				env := newEnv(c.World)
 				op := "builder "
-				if i%5 == 4 {
+				if c.NoDiagCb {
 					// a tracer that has no Diagnostics callback
 					env.noDiagCb = true
 					op = "builder-notd "
@@ -420,6 +513,22 @@ func init() {
 				}
 				rep.Case(reqs[i], nt, map[string]interface{}{"ops": c.Ops, "packages": len(c.World.Pkgs), "registry": len(c.World.Regs), "dep_rows": len(c.World.Deps), "results": run.results})
 				judgeBuild(rep, c, run, i)
+		}
+		if replayIdx >= 0 {
+			rep.BeginReplay()
+			runCase(replayIdx)
+			rep.EndReplay(reqs[replayIdx])
+		}
+		for i := range cases {
+			if i == replayIdx {
+				continue
+			}
+			wg.Add(1)
+			sem <- struct{}{}
+			go func(i int) {
+				defer wg.Done()
+				defer func() { <-sem }()
+				runCase(i)
 			}(i)
 		}
 		wg.Wait()
